@@ -2042,10 +2042,21 @@ impl World {
                     // which argument combinations set_psk accepts is not part of any property
                     // (C10 only demands Ok-or-Err); the shadow follows a well-formed success
                     if r.is_ok() && !expect_ok {
-                        // accepted something outside the documented domain: legal for C10, but
-                        // the model cannot know what key is now installed
+                        // accepted something outside the documented domain: legal for C10. For an
+                        // over-long key the model assumes the one plausible permissive reading
+                        // (the first 32 bytes are used) and carries on, so that the property-level
+                        // checks (C08: parties that supplied different keys) still see the session;
+                        // anything else leaves the model blind for this node
                         self.stats.probe("set_psk-accepted-unusual-arguments");
-                        node.shadow = None;
+                        if key.len() > 32 && (idx as usize) < 10 {
+                            if let Some(sh) = node.shadow.as_mut() {
+                                let mut k = [0u8; 32];
+                                k.copy_from_slice(&key[..32]);
+                                sh.psks[idx as usize] = Some(k);
+                            }
+                        } else {
+                            node.shadow = None;
+                        }
                     }
                     if r.is_ok() && expect_ok {
                         self.stats.probe("late-psk-set");
